@@ -240,6 +240,14 @@ func WorkerMain(t *testing.T, w World) {
 		writeJSON(outPath, res)
 	case "digest":
 		digests(t, w, env, outPath)
+	case "trace":
+		// debugging aid: one fresh run of the tape seeded VERIF_SEED, events printed
+		seed, _ := strconv.ParseUint(os.Getenv("VERIF_SEED"), 10, 64)
+		o := runGuard(t, w, simrt.NewTape(seed), env)
+		for _, e := range o.Events {
+			fmt.Println(e)
+		}
+		fmt.Printf("faults=%v probes=%v violations=%d stuck=%v harness=%q\n", o.Faults, o.Probes, len(o.Violations), o.Stuck, o.HarnessErr)
 	default:
 		t.Fatalf("unknown VERIF_MODE %q", mode)
 	}
